@@ -33,7 +33,7 @@ func nsOf(pid string) map[string]string {
 
 type c04opts struct {
 	cred, dropCaps, nnp, seccomp, sync, ucas bool
-	credNoGroups                            bool
+	credNoGroups                             bool
 	newuser, nsgroup, pivot                  bool
 	ptrace, stop                             bool
 	workdir, names                           bool
